@@ -20,11 +20,13 @@ def run(tier):
         rule_tristate(rep, [f for f in funcs if f.qname in WRAPPERS], "C55")
         rule_invalid_before_write(rep, funcs)
         rule_restore(rep, funcs)
+        rule_epoch(rep, funcs)
         for w in ws:
             rule_k0_tables(rep, funcs, w, hyps)
         if "FiniteStrain" in unit:
             rule_k12_tables(rep, funcs)
     rep.floor("tri-state status variables", 15)
+    rep.floor("handler calls examined for epoch agreement", 20)
     rep.floor("wrapper instantiations (invalid-code rule)", 15)
     rep.floor("K[1]/K[2] code obligations", 12)
     rep.floor("K[0] code obligations", 48)
